@@ -3,8 +3,10 @@
 -/
 import Rtp.Model.Packetizer
 import Rtp.Pred.C06
+import Rtp.Go.Bits
+import Rtp.Spec.AbsSendTimeValue
 namespace Rtp.Proofs.Packetizer
-open Rtp Rtp.Model Rtp.Model.Packetizer Rtp.Pred.C06
+open Rtp Rtp.Model Rtp.Model.Packetizer Rtp.Pred.C06 Rtp.Spec.AbsSendTimeValue
 
 /-! ### the state along a history -/
 
@@ -513,5 +515,117 @@ theorem run_padding (cfg p : Packetizer) (hc : SameCfg cfg p) (hv : AbsValid p) 
         Bool.true_and] at ih' ⊢
       exact ih'
     | enableAbs id => simpa [Packetizer.run, Packetizer.step, paddingOk] using ih'
+
+/-! ### c06_ts in closed form -/
+
+/-- the packetizer after a history -/
+def execP (p : Packetizer) : List PkOp → Packetizer
+  | [] => p
+  | op :: ops => execP (p.step op).2 ops
+
+/-- samples of the non-empty `Packetize` calls plus skipped samples, mod 2^32 -/
+def elapsed : List PkOp → UInt32
+  | [] => 0
+  | .packetize _ payload samples _ :: ops => (if payload.isEmpty then 0 else samples) + elapsed ops
+  | .skip n :: ops => n + elapsed ops
+  | _ :: ops => elapsed ops
+
+theorem execP_ts (p : Packetizer) (ops : List PkOp) : (execP p ops).ts = p.ts + elapsed ops := by
+  induction ops generalizing p with
+  | nil => simp [execP, elapsed]
+  | cons op ops ih =>
+    cases op with
+    | packetize pay payload samples now =>
+      simp only [execP, elapsed, ih, Packetizer.step, packetize]
+      split
+      · simp
+      · split <;> simp [UInt32.add_assoc]
+    | skip n => simp [execP, elapsed, ih, Packetizer.step, skipSamples, UInt32.add_assoc]
+    | padding n => simp [execP, elapsed, ih, Packetizer.step, generatePadding]
+    | enableAbs id => simp [execP, elapsed, ih, Packetizer.step, enableAbsSendTime]
+
+theorem run_append (p : Packetizer) (ops1 ops2 : List PkOp) :
+    p.run (ops1 ++ ops2) = p.run ops1 ++ (execP p ops1).run ops2 := by
+  induction ops1 generalizing p with
+  | nil => simp [Packetizer.run, execP]
+  | cons op ops ih => simp [Packetizer.run, execP, ih]
+
+/-! ### the value of the abs-send-time element -/
+
+theorem toNtp_toNat (now : Int64) :
+    (toNtpTime now).toNat =
+      ((now.toUInt64.toNat / 1000000000 + 2208988800) % 4294967296) * 4294967296 +
+        (now.toUInt64.toNat % 1000000000) * 4294967296 / 1000000000 := by
+  simp only [toNtpTime]
+  generalize now.toUInt64 = u
+  have hu := u.toNat_lt
+  have hfrac : u.toNat % 1000000000 < 1000000000 := Nat.mod_lt _ (by omega)
+  have hf : (((u % 1000000000) <<< 32) / 1000000000).toNat = (u.toNat % 1000000000) * 4294967296 / 1000000000 := by
+    simp only [UInt64.toNat_div, UInt64.toNat_shiftLeft, UInt64.toNat_mod]
+    simp
+    rw [Nat.shiftLeft_eq, Nat.mod_eq_of_lt]
+    omega
+  have hflt : (u.toNat % 1000000000) * 4294967296 / 1000000000 < 2 ^ 32 := by
+    apply Nat.div_lt_of_lt_mul; omega
+  have hs : ((u / 1000000000 + 0x83AA7E80) <<< 32).toNat =
+      ((u.toNat / 1000000000 + 2208988800) % 4294967296) <<< 32 := by
+    simp only [UInt64.toNat_shiftLeft, UInt64.toNat_add, UInt64.toNat_div]
+    simp
+    rw [Nat.shiftLeft_eq, Nat.shiftLeft_eq]
+    have : (u.toNat / 1000000000 + 2208988800) < 2 ^ 64 := by omega
+    omega
+  rw [UInt64.toNat_or, hs, hf, Rtp.Bits.nat_shl_or _ _ 32 hflt]
+
+theorem abs_value (now : Int64) :
+    (toNtpTime now >>> 14).toNat % 16777216 = absValue now.toUInt64.toNat := by
+  rw [UInt64.toNat_shiftRight, toNtp_toNat]
+  simp only [absValue]
+  generalize now.toUInt64.toNat = ns
+  have hfrac : ns % 1000000000 < 1000000000 := Nat.mod_lt _ (by omega)
+  generalize hfr : ns % 1000000000 = fr at *
+  generalize (ns / 1000000000 + 2208988800) = S
+  have h1 : fr * 4294967296 / 1000000000 / 16384 = fr * 262144 / 1000000000 := by
+    rw [Nat.div_div_eq_div_mul, show fr * 4294967296 = fr * 262144 * 16384 by omega,
+      Nat.mul_div_mul_right _ _ (by omega)]
+  have h2 : fr * 262144 / 1000000000 < 262144 := by
+    apply Nat.div_lt_of_lt_mul; omega
+  have h3 : (S % 4294967296 * 4294967296 + fr * 4294967296 / 1000000000) / 16384 =
+      S % 4294967296 * 262144 + fr * 4294967296 / 1000000000 / 16384 := by
+    omega
+  simp
+  rw [Nat.shiftRight_eq_div_pow, show (2:Nat) ^ 14 = 16384 by rfl, h3, h1]
+  omega
+
+theorem be24_of (t : UInt64) :
+    [((t &&& 0xFF0000) >>> 16).toUInt8, ((t &&& 0xFF00) >>> 8).toUInt8, (t &&& 0xFF).toUInt8] =
+    [(t.toNat % 16777216 / 65536).toUInt8, (t.toNat % 16777216 / 256 % 256).toUInt8,
+     (t.toNat % 16777216 % 256).toUInt8] := by
+  have e1 : (16711680 : Nat) = (2 ^ 8 - 1) <<< 16 := by decide
+  have e2 : (65280 : Nat) = (2 ^ 8 - 1) <<< 8 := by decide
+  have e3 : (255 : Nat) = 2 ^ 8 - 1 := by decide
+  congr 1
+  · apply UInt8.toNat_inj.mp
+    simp only [UInt64.toNat_toUInt8, UInt64.toNat_shiftRight, UInt64.toNat_and, Nat.toUInt8, UInt8.toNat_ofNat']
+    simp
+    rw [e1, Rtp.Bits.nat_and_shl_shr]
+    omega
+  · congr 1
+    · apply UInt8.toNat_inj.mp
+      simp only [UInt64.toNat_toUInt8, UInt64.toNat_shiftRight, UInt64.toNat_and, Nat.toUInt8, UInt8.toNat_ofNat']
+      simp
+      rw [e2, Rtp.Bits.nat_and_shl_shr]
+      omega
+    · congr 1
+      apply UInt8.toNat_inj.mp
+      simp only [UInt64.toNat_toUInt8, UInt64.toNat_and, Nat.toUInt8, UInt8.toNat_ofNat']
+      simp
+      rw [e3, Rtp.Bits.nat_and_mask]
+      omega
+
+/-- `NewAbsSendTimeExtension(t).Marshal()` is the spec's 6.18 fixed-point value of the instant, for
+    EVERY clock reading (`ns` = `uint64(t.UnixNano())`, which is the Unix time in ns when that is ≥ 0) -/
+theorem abs_bytes_spec (now : Int64) : absSendTimeBytes now = be24n (absValue now.toUInt64.toNat) := by
+  simp only [absSendTimeBytes, be24n]
+  rw [be24_of, abs_value]
 
 end Rtp.Proofs.Packetizer
